@@ -294,7 +294,13 @@ pub fn eval(expr: Node) -> Result<Number, Box<dyn error::Error>> {
                 #[cfg(feature = "verif_hooks")]
                 crate::verif_hooks::tick(crate::verif_hooks::Point::EvalLoop);
                 x += 1;
-                n = (n.log10() / b.log10()).floor();
+                let next = (n.log10() / b.log10()).floor();
+                if !(next < n) {
+                    // the logarithm no longer decreases (base <= 1, infinite argument or a
+                    // fixed point of a base close to 1): the iteration count is infinite
+                    return Ok(Number::Float(f64::INFINITY));
+                }
+                n = next;
             }
             Ok(Number::Integer(x))
         }
